@@ -113,7 +113,7 @@ PLANS = {
         "assumptions": ["|v| < 2^20 so that the float ordering key is exact"],
         "runs": flow("c11.relegalize", ["general", "rowhigh", "obstruction", "polarity", "dense"], "asan", 3000, 10000)
                 + [R("h_flow", "asan", "c11.constructed", 10000, 40000)]
-                + flow("c11.relegalize", CROWDED, "asan", 600, 3000)
+                + flow("c11.relegalize", CROWDED, "asan", 600, 3000) + flow("c11.relegalize", ["big20"], "asan", 2000, 8000)
                 + flow("c11.relegalize", ["general", "rowhigh", "obstruction", "polarity", "dense"], "fast", 0, 20000)
                 + [R("h_flow", "fast", "c11.constructed", 0, 60000)],
     },
@@ -215,7 +215,7 @@ PLANS = {
                 "elimination, partial pivoting), same tolerance, positive-definite and well-conditioned instances only; weights "
                 "include 0.125..0.5 and 1.5, 2.5; non-trivial = some weight (or scaled weight) is not an integer; distinct = API, net "
                 "model, factor, size",
-        "assumptions": ["CG tolerance 1e-8 / 5000 iterations for tolerance comparisons", "float operations scale exactly by powers of two (no under/overflow in the magnitudes used)"],
+        "assumptions": ["CG tolerance 1e-8 / 5000 iterations for tolerance comparisons", "forward bound = 4 (star) / 40 (two-pin) x cond1 x 6e-8 x span, calibrated on the unchanged tree (all star instances < 1 x, all two-pin instances < 10 x)", "float operations scale exactly by powers of two (no under/overflow in the magnitudes used)"],
         "runs": [R("h_weights", "asan", "c17.lsq.star", 16000, 80000), R("h_weights", "asan", "c17.lsq.twopin", 16000, 80000),
                  R("h_weights", "asan", "c17.pow2.model", 16000, 80000), R("h_weights", "asan", "c17.scale.model", 16000, 80000),
                  R("h_weights", "asan", "c17.pow2.global", 1600, 8000),
